@@ -1496,7 +1496,12 @@ func (v *VMValue) ComputedExecute(ctx *Context, detail *BufferSpan) *VMValue {
 	}
 
 	if cd.code == nil {
-		_ = vm.Run(cd.Expr)
+		// 首次执行(如从序列化数据恢复的值)需要先编译；Parse 会清零算力计数，此处需保留，否则递归调用不受算力上限约束
+		opCount := vm.NumOpCount
+		if err := vm.Parse(cd.Expr); err == nil {
+			vm.NumOpCount = opCount
+			_ = vm.RunAfterParsed()
+		}
 		cd.code = vm.code
 		cd.codeIndex = vm.codeIndex
 	} else {
@@ -1580,7 +1585,12 @@ func (v *VMValue) FuncInvokeRaw(ctx *Context, params []*VMValue, useUpCtxLocal b
 	}
 
 	if cd.code == nil {
-		_ = vm.Run(cd.Expr)
+		// 首次执行(如从序列化数据恢复的值)需要先编译；Parse 会清零算力计数，此处需保留，否则递归调用不受算力上限约束
+		opCount := vm.NumOpCount
+		if err := vm.Parse(cd.Expr); err == nil {
+			vm.NumOpCount = opCount
+			_ = vm.RunAfterParsed()
+		}
 		cd.code = vm.code
 		cd.codeIndex = vm.codeIndex
 	} else {
